@@ -23,7 +23,11 @@ int macros_get_char(AsmContext *) { return CHAR_EOF; }
 char *macros_lookup(Macros *, char *, int *) { return 0; }
 int macros_push_define(Macros *, char *) { return 0; }
 extern "C" char *macros_expand_params(AsmContext *, char *, int) { return 0; }
-int Linker::search_code_from_symbol(const char *) { return 0; }
+/* C20 (symbol discovery): imported object code is looked up - and thereby scheduled for placement - only for names the
+   program USES: never while symbols are being ignored (the name after .set/.equ/.export/.define is being defined), only in
+   pass 1, and only when the name is not already a symbol */
+extern "C" { int g_ctx_ignore, g_ctx_pass, g_lookups; }
+int Linker::search_code_from_symbol(const char *) { g_lookups++; OBL(g_ctx_ignore == 0 && g_ctx_pass == 1, "C20.discover: imported code is searched only for a name that is used (not while symbols are ignored) and only in pass 1"); return nondet_int() & 1; }
 int Symbols::lookup(const char *, uint32_t *address) { *address = 0; return -1; }
 extern "C" void exit(int c) { ASSUME(0); }
 extern "C" int getc(FILE *f)
@@ -57,8 +61,8 @@ static long g_file_obj[8];
 extern "C" void h_tokens_get()
 {
   AsmContext ctx;
-  ctx.tokens.in = (FILE *)(void *)&g_file_obj[0]; ctx.tokens.token_buffer.code = 0; ctx.tokens.token_buffer.ptr = 0; ctx.list = 0; ctx.write_list_file = 0; ctx.linker = 0;
-  ctx.pass = 1; ctx.ignore_symbols = nondet_int() & 1; ctx.parsing_ifdef = nondet_int() & 1;
+  ctx.tokens.in = (FILE *)(void *)&g_file_obj[0]; ctx.tokens.token_buffer.code = 0; ctx.tokens.token_buffer.ptr = 0; ctx.list = 0; ctx.write_list_file = 0; static long lk_obj[16]; ctx.linker = (nondet_int() & 1) ? (Linker *)(void *)&lk_obj[0] : (Linker *)0;
+  ctx.pass = 1 + (nondet_int() & 1); ctx.ignore_symbols = nondet_int() & 1; g_ctx_ignore = ctx.ignore_symbols; g_ctx_pass = ctx.pass; g_lookups = 0; ctx.parsing_ifdef = nondet_int() & 1;
   ctx.address = nondet_int(); ctx.bytes_per_address = 1; ctx.error_count = 0; ctx.macros.stack_ptr = 0;
   ctx.is_dollar_hex = nondet_int() & 1; ctx.strings_have_dots = nondet_int() & 1; ctx.strings_have_slashes = nondet_int() & 1; ctx.can_tick_end_string = nondet_int() & 1;
   ctx.numbers_dont_have_dots = nondet_int() & 1; ctx.ignore_number_postfix = nondet_int() & 1;
